@@ -84,18 +84,19 @@ def check_primitive_events(case, signable, events, rec, model, out):
     if data is None:
         return
     for ev in events:
-        if not ev["ok"]:
-            continue
-        rec.count("probe_successful_verifications")
+        if ev["ok"]:
+            rec.count("probe_successful_verifications")
         khex = ev["key"].hex()
         entry = signable["signatures"].get(khex)
         good = False
+        filed = False
         if entry is not None and isinstance(entry, dict) and isinstance(entry.get("signature"), str):
             try:
                 sig_ok = bytes.fromhex(entry["signature"]) == ev["sig"]
             except ValueError:
                 sig_ok = False
             if sig_ok:
+                filed = True
                 if case["gpg"]:
                     try:
                         exp = openpgp.digest(data, bytes.fromhex(entry["other_headers"]))
@@ -104,7 +105,10 @@ def check_primitive_events(case, signable, events, rec, model, out):
                 else:
                     exp = data
                 good = exp is not None and exp == ev["data"]
-        if not good and out.accepted:
+        # a verification of the entry filed under this key must be over the canonical
+        # payload bytes (whether or not it succeeded); a *successful* verification of
+        # anything else must not lead to acceptance
+        if (filed and not good) or (ev["ok"] and not good and out.accepted):
             rec.violation(
                 "primitive-probe/verify_signable/verified-other-bytes-or-key",
                 "a successful primitive verification used bytes/key that are not (canonical payload, "
